@@ -103,7 +103,27 @@ def _describe(e, init, gtf, gm):
         else:
             dim = pres = "kind=" + tx["kind"]
             idx = "ge2^32" if big else "any"
-        return dict(ins="GTF", name=name, dim=dim, pres=pres, idx=idx, dest=dest, obs=obs, defined=sel in gtf, b=b)
+        d = dict(ins="GTF", name=name, dim=dim, pres=pres, idx=idx, dest=dest, obs=obs, defined=sel in gtf, b=b)
+        if name == "InputContractOutputIndex":
+            # the IMPLEMENTED rule of this selector (a recorded finding: it is not the documented field): the position of the first
+            # Output::Contract whose input_index is $rB; InputNotFound when there is none; InvalidMetadataIdentifier for $rB >= 2^16.
+            # `rule` says whether the observation follows that rule exactly — only then does it fall into a known class.
+            outs = tx.get("outputs", [])
+            pos = [k for k, o in enumerate(outs) if o.get("kind") == "Contract" and int(o.get("input_index", -1)) == b]
+            if b >= 65536:
+                want = "InvalidMetadataIdentifier"
+            elif not pos:
+                want = "InputNotFound"
+            else:
+                want = "ok"
+            follows = obs == want
+            if follows and obs == "ok":
+                got = e.get("val")
+                if got is None:
+                    got = (e.get("regs") or {}).get(str(ra))
+                follows = got is not None and int(got) == pos[0]
+            d["rule"] = follows
+        return d
     if op == 0x71:
         imm = w & 0x3ffff
         return dict(ins="GM", name=gm.get(imm, "undefined"), dim=init["ctx"]["kind"], pres=init["ctx"]["kind"], idx="-", dest=dest,
@@ -124,6 +144,8 @@ def _class(d):
     if d["dest"] == "reserved" and d["obs"] == "ok":
         return "vmmeta/%s/reserved-destination/ok" % d["ins"]
     if d["name"] in NO_ELEMENT_DIMENSION:
+        if d.get("rule") is False:
+            return "vmmeta/%s/%s/%s/not-the-implemented-rule" % (d["ins"], d["name"], d["obs"])
         return "vmmeta/%s/%s/%s" % (d["ins"], d["name"], d["obs"])
     return "vmmeta/%s/%s/%s/%s" % (d["ins"], d["name"], d["dim"], d["obs"])
 
@@ -254,7 +276,7 @@ def run(pid, tier):
             elif "mismatch" in r:
                 ob = r["observed"]
                 pseudo = dict(word="%08x" % ((0x61 << 24) | (0x10 << 18) | (0x11 << 12) | r["sel"]), poke={"17": r["b"]},
-                              out="proceed" if ob.get("ok") else "panic", reason=ob.get("why"))
+                              out="proceed" if ob.get("ok") else "panic", reason=ob.get("why"), val=ob.get("val") if ob.get("ok") else None)
                 d = _describe(pseudo, dict(tx=lines[r["line"]]["tx"], regs=["0"] * 64, ctx=dict(kind="predicate")), gtf, gm)
                 seen.setdefault(_class(d), []).append(r)
         if summary is None or summary["cases"] != ncases:
